@@ -534,7 +534,25 @@ pub fn scenario(rng: &mut Rng, id: usize) -> Option<Start> {
             p.sq[56] = pc(R, BLACK);
             p.sq[63] = pc(R, BLACK);
             p.castle = WK | WQ | BK | BQ;
-            match rng.below(4) {
+            match rng.below(6) {
+                4 | 5 => {
+                    // an enemy king next to an unmoved rook: the king may take it while the right still exists
+                    let (rook, cands, king_home, other_rook, stm) = if rng.chance(1, 2) {
+                        (7usize, [14usize, 15, 6], 60usize, 63usize, BLACK)
+                    } else {
+                        (0usize, [9usize, 8, 1], 60usize, 56usize, BLACK)
+                    };
+                    let _ = rook;
+                    // black king leaves home (black loses its rights), stands beside the white rook
+                    p.sq[king_home] = 0;
+                    p.sq[other_rook] = 0;
+                    p.sq[56] = 0;
+                    p.sq[63] = 0;
+                    p.castle &= WK | WQ;
+                    let ks = cands[rng.below(3)];
+                    p.sq[ks] = pc(K, BLACK);
+                    p.stm = stm;
+                }
                 0 => {} // open a- and h-files: Rxa8 / Rxh8 available at once
                 1 => {
                     p.sq[sqm(1, 6) as usize] = pc(P, WHITE); // b7xa8 promotes capturing the rook
@@ -639,6 +657,26 @@ pub fn scenario(rng: &mut Rng, id: usize) -> Option<Start> {
             let pk = *rng.pick(&[P, N, B, R, Q, P]);
             if pk == P && (x >> 3 == 0 || x >> 3 == 7) {
                 return None;
+            }
+            if rng.chance(1, 5) {
+                // special: a pawn on the seventh rank pinned diagonally by a slider on the eighth rank
+                // (its only move is to capture the pinner - and promote)
+                let f = rng.range(1, 6) as i8;
+                let df = *rng.pick(&[-1i8, 1]);
+                let n = rng.range(1, 3) as i8;
+                let ks = mk(f - df * n, 6 - n)?;
+                let ss = mk(f + df, 7)?;
+                p.sq[ks as usize] = pc(K, WHITE);
+                p.sq[sqm(f, 6) as usize] = pc(P, WHITE);
+                p.sq[ss as usize] = pc(*rng.pick(&[B, Q]), BLACK);
+                let mut reserved = ray_set(ks, (df, 1)) | bit(ks);
+                if !place_king_somewhere(rng, &mut p, BLACK, reserved) {
+                    return None;
+                }
+                reserved |= bit(p.king_sq(BLACK).unwrap());
+                add_noise(rng, &mut p, reserved, 6);
+                p.stm = WHITE;
+                return finish(rng, Start::plain(p, tag));
             }
             p.sq[k as usize] = pc(K, WHITE);
             p.sq[x as usize] = pc(pk, WHITE);
